@@ -333,7 +333,7 @@ def lean_arm(rows):
     return "[" + ", ".join('("' + g + '", [' + ", ".join(f'"{a}"' for a in acts) + "])" for g, acts in rows) + "]"
 
 
-GROUPS = ["cancel", "mismatch", "exit", "setdef", "escape", "signals", "sighandler", "termchild", "delayloop", "drainloop", "mainloop", "placeholders", "xml"]
+GROUPS = ["cancel", "mismatch", "exit", "setdef", "escape", "signals", "sighandler", "termchild", "termexit", "delayloop", "drainloop", "mainloop", "placeholders", "xml"]
 
 
 def group_lines(g):
@@ -387,6 +387,11 @@ def group_lines(g):
                 f"def terminateChildStopArm : List (String × List String) := {lean_arm(arms['Stop'])}",
                 f"def terminateChildContinueArm : List (String × List String) := {lean_arm(arms['Continue'])}",
                 f"def terminateChildShutdownArm : List (String × List String) := {lean_arm(arms['Shutdown'])}"]
+    if g == "termexit":
+        keys = {"GraceExpired": r"_ = &mut sleep", "ChildExited": r"_ = child\.wait\(\)"}
+        arms = request_arms(strip_comments(read("nextest-runner/src/runner/unix.rs")), "terminate_child", keys)
+        return ["/-- unix.rs `terminate_child`: what happens when the grace period runs out, and when the process exits first -/"] + [
+                f"def terminateChild{k}Arm : List (String × List String) := {lean_arm(arms[k])}" for k in ("GraceExpired", "ChildExited")]
     if g == "mainloop":
         keys = {"Stop": r"SignalRequest::Stop\(\w+\)", "Continue": r"SignalRequest::Continue"}
         arms = request_arms(strip_comments(read("nextest-runner/src/runner/executor.rs")), "handle_signal_request", keys)
